@@ -6,7 +6,7 @@ import (
 	"verif/vkit"
 )
 
-var collOverlap = vkit.NewCollector("C07", "TestOverlap", "2-8 free-running publishers (barrier start) x 1-20 events each against 1-3 Sequential handlers (sync and async, plain and context-aware) whose body marks entry/exit with a compare-and-swap and yields in between; in a third of the cases every k-th publish carries a context of its own that is cancelled as soon as PublishContext has returned (the event may be skipped by asynchronous handlers, nothing else may change); 5 fresh buses per case, race detector on, drawn GOMAXPROCS, stall oracle. Oracle = the CAS never observes an overlap, each handler sees every published event exactly once, and a synchronous Sequential handler has handled an event before that event's Publish returns and before its after-publish hook runs (waiting for the handler's lock must not turn the delivery asynchronous). Non-trivial = >=2 concurrent publishers.")
+var collOverlap = vkit.NewCollector("C07", "TestOverlap", "2-8 free-running publishers (barrier start) x 1-20 events each against 1-3 Sequential handlers (sync and async, plain and context-aware) whose body marks entry/exit with a compare-and-swap and yields in between; in a third of the cases every k-th publish carries a context of its own that is cancelled as soon as PublishContext has returned (the event may be skipped by asynchronous handlers, nothing else may change); in another third the first handler (synchronous, context-aware) publishes a command with the context it was given and an asynchronous command handler publishes, with its context, a derived event that is routed back to the first handler from another goroutine; 5 fresh buses per case, race detector on, drawn GOMAXPROCS, stall oracle. Oracle = the CAS never observes an overlap, every event reaches the synchronous handlers in subscription order, each handler sees every published event exactly once, and a synchronous Sequential handler has handled an event before that event's Publish returns and before its after-publish hook runs (waiting for the handler's lock must not turn the delivery asynchronous). Non-trivial = >=2 concurrent publishers.")
 var collOrder = vkit.NewCollector("C07", "TestOrder", "one goroutine publishes ids 0..n-1 (n<=50) to 1-2 Async+Sequential handlers with drawn work per event and drawn publisher pauses, drawn GOMAXPROCS; oracle = each handler processes exactly 0..n-1 in that order. Non-trivial = n>=3.")
 
 var collBurst = vkit.NewCollector("C07", "TestBurst", "one goroutine publishes 2-6 bursts of 20-400 events back to back to 1-2 Async+Sequential handlers (a long line of dispatch goroutines forms behind each handler; drawn per-event work, drawn GOMAXPROCS) and calls Wait after each burst. Oracle = no overlap (CAS), every handler has processed exactly 0..k in order when Wait returns, and Wait returns: events outstanding while no handler is running and no counter moving for 40 s is reported as lost delivery. Non-trivial = bursts of >=50 events.")
